@@ -42,6 +42,8 @@ Definition check_orca_layout (w : nat) (M : list (list Qc)) (lines : list (list 
   mat_eqb (orca_lines z0 w M) lines.
 Definition check_orca_parse (R : nat) (lines : list (list Qc)) (cls : nat) (impl : list (list Qc)) : bool :=
   res_mat (orca_parse R lines) cls impl.
+Definition check_orca_file (has_end : bool) (R : nat) (lines : list (list Qc)) (cls : nat) (impl : list (list Qc)) : bool :=
+  res_mat (orca_hess_file has_end R lines) cls impl.
 Definition check_blocks (w : nat) (M : list (list Qc)) : bool :=
   mat_eqb (unblocks (List.length M) (blocks w M)) M.
 
